@@ -1,7 +1,7 @@
 (* C04 — spherical and Cartesian coordinates denote the same points.
    Statements only; each closed by `exact` of a lemma from Proofs/C04_proofs.v, followed by
    Print Assumptions.  c04_run fx: the model of the getters/populate functions/normalisation for the
-   variant fx of the seven defective code sites (Model/C04.v; the node-longitude site has two
+   variant fx of the eight once-defective code sites (Model/C04.v; the node-longitude site has two
    alternative repairs): c04_all_fixed fx = true = every site repaired, c04_as_found = the code as
    it was found, c04_repo_fixes = what the current source contains
    (Gen/C04_variant.v, regenerated from /repo by harness/translators/c04_variant.py on every run). *)
@@ -100,17 +100,22 @@ Theorem C04_provenance_every_report : forall fx c ops,
 Proof. exact c04_every_report_sym. Qed.
 Print Assumptions C04_provenance_every_report.
 
-(* History theorem, semantic form: lon/lat reported are in [-180,180] x [-90,90] and denote exactly
-   the element's direction; Cartesian coordinates are a positive multiple of it, of unit length
-   whenever the source did not supply them *)
+(* History theorem, semantic form.  Histories include accesses of the 18 coordinate properties,
+   construct_face_centers("welzl" / "cartesian average"), re-assignment through the setters and
+   normalize_cartesian_coordinates.  lon/lat reported are in [-180,180] x [-90,90] and denote exactly
+   the direction of the element's family; Cartesian coordinates are a positive multiple of the SAME
+   direction, of unit length whenever the source did not supply them.  For faces the family is the
+   source's / derived centres or the one installed by construct_face_centers. *)
 Theorem C04_provenance : forall fx c en ops,
   c04_all_fixed fx = true -> c04_wf_case c = true -> c04_env_ok c en ->
-  (forall k l, c04_get_ll (c04_run fx c ops) k = Some l -> forall i, (i < en_count en k)%nat ->
-      -180 <= fst (c04_sem_ll en l i) <= 180 /\ -90 <= snd (c04_sem_ll en l i) <= 90 /\
-      c04_ll2xyz (c04_map_ll c04_deg2rad (c04_sem_ll en l i)) = en_dir en k i) /\
-  (forall k x, c04_get_xyz (c04_run fx c ops) k = Some x -> forall i, (i < en_count en k)%nat ->
-      exists r, 0 < r /\ c04_sem_xyz en x i = c04_scale r (en_dir en k i) /\
-                (c04_has_xyz (c04_prov_of c k) = false -> r = 1)).
+  let s := c04_run fx c ops in
+  (forall l, st_nll s = Some l -> c04_ll_denotes en KNode l) /\
+  (forall x, st_nxyz s = Some x -> c04_xyz_denotes c en KNode x) /\
+  (forall l, st_ell s = Some l -> c04_ll_denotes en KEdge l) /\
+  (forall x, st_exyz s = Some x -> c04_xyz_denotes c en KEdge x) /\
+  exists F, c04_is_face_fam F = true /\
+    (forall l, st_fll s = Some l -> c04_ll_denotes en F l) /\
+    (forall x, st_fxyz s = Some x -> c04_xyz_denotes c en F x).
 Proof. exact c04_provenance_sem. Qed.
 Print Assumptions C04_provenance.
 
@@ -123,7 +128,7 @@ Print Assumptions C04_normalize_all_unit.
 
 (* --- the code as found, and the current source ------------------------------------------------ *)
 
-(* each of the seven sites alone breaks the property, whatever the state of the other six
+(* each of the eight sites alone breaks the property, whatever the state of the others
    (c04_bad: a well-formed source and a history after which a reported group is not well-united,
    or a Cartesian group is not unit right after normalisation) *)
 Theorem C04_node_lon_refuted : forall fx, fx_node_wrap fx = false -> fx_node_after fx = false ->
@@ -163,7 +168,12 @@ Theorem C04_edge_normalize_refuted : forall fx, fx_edge_check fx = false -> c04_
 Proof. exact c04_edge_check_refuted. Qed.
 Print Assumptions C04_edge_normalize_refuted.
 
-(* the verdict for every variant: all seven repaired -> the property holds for every source and
+(* construct_face_centers("welzl"): the routine's degrees read as radians (before /repo ed0eee67) *)
+Theorem C04_welzl_refuted : forall fx, fx_welzl_deg fx = false -> c04_bad fx c04_case_xyz_nodes [OWelzl].
+Proof. exact c04_welzl_refuted. Qed.
+Print Assumptions C04_welzl_refuted.
+
+(* the verdict for every variant: all eight repaired -> the property holds for every source and
    history; otherwise it fails on a concrete source and history *)
 Theorem C04_verdict : forall fx, c04_verdict fx.
 Proof. exact c04_verdict_all. Qed.
